@@ -1071,6 +1071,10 @@ typedef struct
     unsigned char majVer;
     unsigned char minVer;
     short extendedMasterSecret;           /* was the extension used? */
+    short pending;                        /* registered in ServerHello, but the
+                                             client's Finished of that handshake
+                                             has not been verified yet: must not
+                                             be resumed */
     psTime_t startTime;
     int32 inUse;
     DLListEntry chronList;
